@@ -452,6 +452,10 @@ Definition signing_keys (keys : list Z) (m n : Z) : list Z :=
 Definition p2sh_signable (keys : list Z) (mn : Z * Z) : bool :=
   len (signing_keys keys (fst mn) (snd mn)) =? fst mn.
 
+(** which inputs can be signed *)
+Definition signable_kind (keys : list Z) (k : tkind) : bool :=
+  match k with KPkh => true | KSh m n => p2sh_signable keys (m, n) | KRaw => false end.
+
 (** apply_signatures over the inputs in order ([ow]: the version has Overwinter, i.e. its
     signature hash is defined). P2PKH: the key is found, then the sighash is computed; multisig:
     the sighash is computed, then the keys are looked up; a redeem script that is not a standard
@@ -540,7 +544,10 @@ Definition build (r : req) : outcome built berr :=
   match run_ops r [] (r_ops r) (init_hdr r) 0 with
   | Err e => Err e
   | Panic => Panic
-  | Ok hd => if r_coinbase r then finish_cb r hd else finish r hd
+  | Ok hd => if r_coinbase r
+             (* coinbase transactions are built, not drafted as PCZTs (outside the modelled domain) *)
+             then (if is_pczt r then Err EOther else finish_cb r hd)
+             else finish r hd
   end.
 
 (** What the recording fee rule sees: only a linear rule records, and only when get_fee is reached. *)
